@@ -144,10 +144,14 @@ def upload_window(chk, rng, thorough):
     recs = []
 
     def call(px, op, a, w):
-        if op == 'seek':
-            return {'op': 'seek', 'a': a, 'w': w, 'tell': px.seek(a, w), 'data': []}
-        d = px.read(None if a < 0 else a)
-        return {'op': 'read', 'a': a, 'w': 0, 'tell': px.tell(), 'data': list(d)}
+        # an exception out of the window object is an observation (reported position -999: clause TellInRange), not a harness failure
+        try:
+            if op == 'seek':
+                return {'op': 'seek', 'a': a, 'w': w, 'tell': px.seek(a, w), 'data': []}
+            d = px.read(None if a < 0 else a)
+            return {'op': 'read', 'a': a, 'w': 0, 'tell': px.tell(), 'data': list(d)}
+        except Exception:   # noqa
+            return {'op': op, 'a': a, 'w': w if op == 'seek' else 0, 'tell': -999, 'data': []}
     for st, end, n, ops in plans:
         src = io.BytesIO(bytes((i + 1) % 256 for i in range(n)))
         px = BytesIOProxy(src, st, end)
